@@ -205,4 +205,33 @@ def reachable (defs : Defs) : Nat → List String → List String
 def hashFreeFrom (defs : Defs) (roots : List String) : Bool :=
   (reachable defs defaultFuel roots).all fun n => (fieldsOf defs n).all fun f => !mentionsHash f.ty
 
+/-! ### interior mutability (a sufficient structural condition for "compiled queries are immutable
+values") -/
+
+/-- Cells and locks of the standard library: anything through which a `&T` can change state. -/
+def interiorNames : List String :=
+  ["Cell", "RefCell", "UnsafeCell", "OnceCell", "OnceLock", "LazyCell", "LazyLock", "Mutex", "RwLock",
+   "Condvar", "Once", "Barrier"]
+
+def isInteriorName (n : String) : Bool := interiorNames.contains n || n.startsWith "Atomic"
+
+mutual
+def mentionsInterior : TyExpr → Bool
+  | .path n args => isInteriorName n || mentionsInteriorList args
+  | .ref _ t => mentionsInterior t
+  | .ptr t => mentionsInterior t
+  | .tuple ts => mentionsInteriorList ts
+  | .slice t => mentionsInterior t
+  | _ => false
+def mentionsInteriorList : List TyExpr → Bool
+  | [] => false
+  | t :: ts => mentionsInterior t || mentionsInteriorList ts
+end
+
+/-- The roots are defined, and no definition reachable from them has a field whose type mentions a
+cell, a lock or an atomic: every value of these types is plain immutable data behind `&`. -/
+def immutableFrom (defs : Defs) (roots : List String) : Bool :=
+  roots.all (fun n => (findDef defs n).isSome) &&
+  (reachable defs defaultFuel roots).all fun n => (fieldsOf defs n).all fun f => !mentionsInterior f.ty
+
 end TF.AutoTraits
